@@ -20,6 +20,7 @@ def run_timeout(seconds: float, func, *args, **kwargs):
         raise RuntimeError('Time limiter not compatible with monkey-patched gevent threading module!')
 
     def _inner_run():
+        interrupted = None
         with multiprocessing.pool.ThreadPool(processes=1) as pool:
             thread = pool.apply(lambda: threading.current_thread())
 
@@ -27,11 +28,16 @@ def run_timeout(seconds: float, func, *args, **kwargs):
                 return pool.apply_async(func, args, kwargs).get(timeout=seconds)
             except multiprocessing.TimeoutError:
                 pass
+            except KeyboardInterrupt as e:
+                # Interrupted while waiting (e.g. by an enclosing time limiter): do not leave the worker running
+                interrupted = e
 
         if thread.is_alive():
             ctypes.pythonapi.PyThreadState_SetAsyncExc(
                 ctypes.c_long(thread.ident), ctypes.py_object(KeyboardInterrupt))
             thread.join()
+        if interrupted is not None:
+            raise interrupted
         raise TimeoutError
 
     # This call flow ensure that the memory of the "killed" thread is cleared
